@@ -9,13 +9,15 @@
 (***************************************************************************)
 EXTENDS Sequence, Sequences, Json
 
-CONSTANTS HistLen, MinConflicts
+CONSTANTS HistLen, MinConflicts, MinQueued
 
 VARIABLE hist
 gvars == <<vars, hist>>
 
 H(op, o, res, v) == hist' = Append(hist, [op |-> op, o |-> o, res |-> res, v |-> v])
-Room == Len(hist) < HistLen
+\* a waiting call runs as soon as the call in flight has returned: nothing else is generated in between
+ResumePending == \E o \in Objs : obj[o].live /\ obj[o].wait /\ obj[o].txn.kind = "none"
+Room == Len(hist) < HistLen /\ ~ResumePending
 
 GGetBegin(o) == Room /\ GetBegin(o) /\ H("getBegin", o, "parked", 0)
 GGetCommit(o) == Room /\ GetCommit(o) /\ H("getCommit", o, IF Conflict(o) THEN "conflict" ELSE "ok", 0)
@@ -25,15 +27,19 @@ GNextCommit(o) == Room /\ NextCommit(o) /\ H("nextCommit", o, IF Conflict(o) THE
 GReleaseBegin(o) == Room /\ ReleaseBegin(o) /\ H("releaseBegin", o, IF ReleaseWrites(o) THEN "parked" ELSE "ok", 0)
 GReleaseCommit(o) == Room /\ ReleaseCommit(o) /\ H("releaseCommit", o, IF Conflict(o) THEN "conflict" ELSE "ok", 0)
 GRestart == Room /\ Restart /\ H("restart", 0, "ok", 0)
+GNextQueued(o) == Room /\ NextQueued(o) /\ H("nextQueued", o, "blocked", 0)
+GResume(o) == Len(hist) < HistLen /\ Resume(o)
+              /\ H("resume", o, IF obj[o].next < obj[o].leased THEN "value" ELSE "parked", obj[o].next)
 
 GenNext ==
     \/ \E o \in Objs : GGetBegin(o) \/ GGetCommit(o) \/ GNextFast(o) \/ GNextBegin(o) \/ GNextCommit(o)
-                        \/ GReleaseBegin(o) \/ GReleaseCommit(o)
+                        \/ GReleaseBegin(o) \/ GReleaseCommit(o) \/ GNextQueued(o) \/ GResume(o)
     \/ GRestart
 
 GenInit == Init /\ hist = <<>>
 GenSpec == GenInit /\ [][GenNext]_gvars
 
 NConf == Cardinality({i \in 1..Len(hist) : hist[i].res = "conflict"})
-Emit == (Len(hist) = HistLen /\ NConf >= MinConflicts) => PrintT(<<"CASE", ToJson(hist)>>)
+NQueued == Cardinality({i \in 1..Len(hist) : hist[i].op = "nextQueued"})
+Emit == (Len(hist) = HistLen /\ NConf >= MinConflicts /\ NQueued >= MinQueued) => PrintT(<<"CASE", ToJson(hist)>>)
 =============================================================================
